@@ -189,7 +189,7 @@ Register rr("mp.read", [](const Tokens& t) -> std::string {
 		return os.str();
 	}
 	if (T == "ts") {
-		CBinTimestamp v;
+		CBinTimestamp v(0x5A5A5A5A5ALL, 0x2AAAAAAA);	// prior content: a read must overwrite every field
 		if (r.ReadValue(v)) os << "ok " << v.Seconds << ':' << v.Nanoseconds << ' ' << r.GetPosition();
 		else os << "no " << r.GetPosition();
 		return os.str();
